@@ -204,6 +204,9 @@ def gen_world(rng, opts=None):
         "file": rng.choice(["out.gwl", "OUT.GWL", "my worklist.gwl", "a.b.gwl"]),
     }
     disk = {"prestate": rng.choice(["none", "none", "empty", "shorter", "longer", "equalish", "torn"])}
+    # the boolean options as a script computes them: numpy.bool_ (`volumes.max() > 950`) or 0/1 instead of a builtin bool
+    r = rng.random()
+    wl["flag_type"] = "npbool" if r < 0.08 else "int" if r < 0.12 else None
     return {"device": device, "regime": regime, "worklist": wl, "disk": disk, "labware": labs}
 
 
@@ -266,8 +269,14 @@ def build_worklist(rt, world, scratch=None, device=None):
             path = pathlib.Path(p)
         else:
             path = p
+    auto_split, diti_mode = w["auto_split"], w["diti_mode"]
+    if w.get("flag_type") == "npbool":
+        import numpy as np
+        auto_split, diti_mode = np.bool_(auto_split), np.bool_(diti_mode)
+    elif w.get("flag_type") == "int":
+        auto_split, diti_mode = int(auto_split), int(diti_mode)
     if w.get("max_volume_default"):
-        wl = cls(path, auto_split=w["auto_split"], diti_mode=w["diti_mode"])
+        wl = cls(path, auto_split=auto_split, diti_mode=diti_mode)
     else:
         mv = dec(w["max_volume"])
         if w.get("max_volume_type") == "npint":
@@ -276,7 +285,7 @@ def build_worklist(rt, world, scratch=None, device=None):
         elif w.get("max_volume_type") == "npfloat":
             import numpy as np
             mv = np.float64(mv)
-        wl = cls(path, max_volume=mv, auto_split=w["auto_split"], diti_mode=w["diti_mode"])
+        wl = cls(path, max_volume=mv, auto_split=auto_split, diti_mode=diti_mode)
     return wl
 
 
